@@ -20,8 +20,13 @@ Quirks of the code that the model keeps:
 * `gini_impurity` / `entropy` `assert!` a positive total (reachable with `min_weight_leaf <= 0`);
 * a node one of whose sides received no row is flagged `leaf_node` but keeps its other child
   (constructor `half`);
-* `find_modal_class` folds over a hash map: the iteration order is a parameter (`ord`);
-* `prune` merges sibling leaves with equal prediction, bottom-up.
+* `find_modal_class` folds over a hash map: the iteration order is a parameter (`ord`); since the
+  `fix:` of C20 a tie is decided for the smaller label *in the order of the label type*, which is
+  the parameter `lord` of the data (class indices listed in label order);
+* `sorted_frequencies`: every sum over class weights (`total_weight`, both impurities) runs in the
+  order of the label type (`inLabelOrder`), not in class-index order and not in hash order;
+* `prune` merges sibling leaves with equal prediction, bottom-up;
+* the accessors `iter_nodes` (level order), `num_leaves`, `max_depth()`, `features()`.
 -/
 import LinfaSpec.Model.Scalar
 
@@ -58,6 +63,9 @@ structure Data (α β : Type) where
   ws : List β
   /-- number of classes (class indices are `< K`) -/
   K : Nat
+  /-- the class indices `0..K-1` listed in the order of the label type `L` (its `Ord`): the order of
+  `sorted_frequencies` and of the tie-break of `find_modal_class` -/
+  lord : List Nat
 
 section
 variable {α β : Type}
@@ -104,12 +112,23 @@ def freqOf (D : Data α β) (rows : List Nat) : List β :=
 def presentClasses (D : Data α β) (rows : List Nat) : List Nat :=
   (List.range D.K).filter fun c => rows.any fun i => D.y i == c
 
-/-- `find_modal_class`: fold over the map in iteration order `order`; a later entry replaces
-the running best unless the best is strictly larger. -/
-def modalOf (freq : Nat → β) (order : List Nat) : Option Nat :=
+/-- position of class `c` in the order of the label type -/
+def Data.rank (D : Data α β) (c : Nat) : Nat := D.lord.idxOf c
+
+/-- `sorted_frequencies`: the class weights (dense over class indices) listed in label order.
+(The Rust vector lists only the keys of the map; the classes absent from it carry `0` here, and
+adding `0`, `0/n`, `0*0` changes no partial sum.) -/
+def inLabelOrder (D : Data α β) (fs : List β) : List β := D.lord.map fun c => fs.getD c 0
+
+/-- `find_modal_class`: fold over the map in iteration order `order`; the running best `b` is kept
+iff `best_freq > freq || (best_freq == freq && best_idx < idx)` (`rank` = order of the label
+type; `==` on weights written with `<` only, the same away from NaN). -/
+def modalOf (freq : Nat → β) (rank : Nat → Nat) (order : List Nat) : Option Nat :=
   order.foldl (fun acc c => match acc with
     | none => some c
-    | some b => if freq c < freq b then some b else some c) none
+    | some b =>
+      if freq c < freq b ∨ ((¬ freq b < freq c ∧ ¬ freq c < freq b) ∧ rank b < rank c) then some b
+      else some c) none
 
 /-- `assert!(n_samples > 0.0)` of both impurity functions -/
 def impOk (fs : List β) : Bool := decide ((0 : β) < sumS fs)
@@ -160,10 +179,10 @@ def sweepGo (P : Params α β) (D : Data α β) (mask : List Bool) (f : Nat) (to
         sweepGo P D mask f total fL' fR' wL' wR' ((j, v') :: rest)
       else
         let wq := wR' / total
-        let score := wq * impurity P fR' + (1 - wq) * impurity P fL'
+        let score := wq * impurity P (inLabelOrder D fR') + (1 - wq) * impurity P (inLabelOrder D fL')
         let mid := (v + v') / ((2 : Nat) : α)
         { feat := f, split := (if mid < v' then mid else v), score := score, wL := wL', wR := wR',
-          fL := fL', fR := fR', ok := impOk fR' && impOk fL' } ::
+          fL := fL', fR := fR', ok := impOk (inLabelOrder D fR') && impOk (inLabelOrder D fL') } ::
           sweepGo P D mask f total fL' fR' wL' wR' ((j, v') :: rest)
     else
       sweepGo P D mask f total fL fR wL wR ((j, v') :: rest)
@@ -172,7 +191,7 @@ def sweepGo (P : Params α β) (D : Data α β) (mask : List Bool) (f : Nat) (to
 /-- all evaluated splits of a node in evaluation order (features outer, positions inner) -/
 def candidates (P : Params α β) (D : Data α β) (sorted : List (List (Nat × α)))
     (mask : List Bool) (pf : List β) : List (Cand α β) :=
-  let total := sumS pf
+  let total := sumS (inLabelOrder D pf)
   (sorted.zipIdx).flatMap fun (s, f) =>
     sweepGo P D mask f total (pf.map fun _ => 0) pf 0 total s
 
@@ -196,8 +215,8 @@ def stopGuard (P : Params α β) (nrows depth : Nat) : Bool :=
     (match P.maxDepth with | some d => decide (d ≤ depth) | none => false)
 
 /-- `impurity_decrease` of the best split (`0` when there is none) -/
-def decOf (P : Params α β) (pf : List β) : Option (Cand α β) → α
-  | some b => P.cast (impurity P pf) - P.cast b.score
+def decOf (P : Params α β) (D : Data α β) (pf : List β) : Option (Cand α β) → α
+  | some b => P.cast (impurity P (inLabelOrder D pf)) - P.cast b.score
   | none => 0
 
 /-- `TreeNode::fit`.  `none` = the call does not return (an `assert!`/`unwrap` fires, or the
@@ -208,7 +227,7 @@ def fitNode (P : Params α β) (D : Data α β) (ord : List Nat → List Nat)
   | fuel + 1, mask, depth =>
     let rows := rowsOf mask
     let pf := freqOf D rows
-    match modalOf (classWeight D rows) (ord (presentClasses D rows)) with
+    match modalOf (classWeight D rows) D.rank (ord (presentClasses D rows)) with
     | none => none
     | some pred =>
       if stopGuard P rows.length depth then some (.leaf pred depth)
@@ -217,7 +236,7 @@ def fitNode (P : Params α β) (D : Data α β) (ord : List Nat → List Nat)
         if cands.any (fun c => !c.ok) then none
         else
           let best := pickBest cands
-          let dec : α := decOf P pf best
+          let dec : α := decOf P D pf best
           if dec < P.minDec then some (.leaf pred depth)
           else match best with
             | none => none
@@ -259,10 +278,16 @@ def allMask (D : Data α β) : List Bool := (List.range D.n).map fun _ => true
 def sortedAll (D : Data α β) (p : Nat) : List (List (Nat × α)) :=
   (List.range p).map (sortedIndex D)
 
+/-- recursion budget of `fit`: `n + 1` levels are enough whenever every split sends rows to both
+sides (each level loses a row); `max_depth + 1` levels are enough in any case (the depth guard).
+Only when neither bounds the recursion (`max_depth = None` and a split with an empty side, which
+needs `min_weight_leaf <= 0`) does the budget run out — the Rust recursion then does not end. -/
+def fitFuel (P : Params α β) (D : Data α β) : Nat := D.n + 1 + P.maxDepth.getD 0
+
 /-- `Fit::fit`: presort every column, fit the root on all rows, prune.  `p` = number of
-columns.  Fuel `n + 1` is enough whenever every split sends rows to both sides. -/
+columns. -/
 def fit (P : Params α β) (D : Data α β) (ord : List Nat → List Nat) (p : Nat) : Option (Tree α) :=
-  match fitNode P D ord (sortedAll D p) (D.n + 1) (allMask D) 0 with
+  match fitNode P D ord (sortedAll D p) (fitFuel P D) (allMask D) 0 with
   | none => none
   | some t => some (prune t).1
 
@@ -321,6 +346,29 @@ def importances (t : Tree α) (p : Nat) : List α :=
   let m := meanDecrease t p
   let s := sumS m
   m.map fun x => x / s
+
+/-! ### accessors of `DecisionTree` -/
+
+/-- `TreeNode::is_leaf` (the `leaf_node` flag) -/
+def Tree.isLeafFlag : Tree α → Bool
+  | .node _ _ _ _ _ _ _ => false
+  | _ => true
+
+/-- `TreeNode::depth` -/
+def Tree.depthField : Tree α → Nat
+  | .leaf _ d => d
+  | .node _ _ _ _ d _ _ => d
+  | .half _ _ _ _ d _ _ => d
+
+/-- `DecisionTree::num_leaves`: `iter_nodes().filter(is_leaf).count()` -/
+def numLeaves (t : Tree α) : Nat := ((iterNodes t).filter Tree.isLeafFlag).length
+
+/-- `DecisionTree::max_depth`: `iter_nodes().fold(0, max(depth))` -/
+def maxDepthOf (t : Tree α) : Nat := (iterNodes t).foldl (fun m n => Nat.max m n.depthField) 0
+
+/-- `DecisionTree::features` as a set (the Rust function collects a `HashSet`), listed ascending -/
+def featuresOf (t : Tree α) (p : Nat) : List Nat :=
+  (List.range p).filter fun f => (splitDecs t).any fun fd => fd.1 == f
 
 end
 end LinfaSpec.Tree
